@@ -12,7 +12,7 @@ from .peers import PeerGone, ReplyTimeout
 
 
 class Step:
-    __slots__ = ("op", "codes", "final", "mark", "data", "names", "closed", "expect", "problems", "pwd", "lines")
+    __slots__ = ("op", "codes", "final", "mark", "data", "names", "closed", "expect", "problems", "pwd", "lines", "between")
 
     def __init__(self, op):
         self.op = op
@@ -26,6 +26,7 @@ class Step:
         self.problems = []
         self.pwd = None
         self.lines = None
+        self.between = 0
 
 
 def parse_pwd(line):
@@ -83,6 +84,7 @@ async def drive(peer, sess: M.Session, ops, *, world=None, check_tree=True, sett
             on_step(st, "before", sess)  # may swap the model's tree (per-user base directories)
         exp = sess.expect(v, arg, will_connect=will_connect, user_limit_reached=opts.get("limit_reached", False))
         st.expect = exp
+        between_cwd = None
         line = verb if arg == "" and not opts.get("trailing_space") else f"{verb} {arg}"
         stored = None
         try:
@@ -95,6 +97,20 @@ async def drive(peer, sess: M.Session, ops, *, world=None, check_tree=True, sett
                 st.codes.append(code)
                 if code[0] == "1":
                     st.mark = code
+                    if will_connect and not sess.dc and opts.get("between") and sess.rest == 0:
+                        # commands sent between the 1xx mark and the data connection: the transfer
+                        # must keep addressing what was resolved (and permission-checked) when its
+                        # command was handled, whatever the session state is by the time the
+                        # data connection shows up
+                        cwd_at_command = sess.cwd
+                        for bv, ba in opts["between"]:
+                            bexp = sess.expect(bv, ba)
+                            bcode, blines = await peer.cmd(bv if ba == "" else f"{bv} {ba}")
+                            if not bexp.accepts(bcode):
+                                st.problems.append(("wrong-reply", f"{bv} {ba!r} sent between the mark of {line!r} and its data connection: got {bcode}, model allows {sorted(bexp.codes)}"))
+                            sess.apply(bv, ba, bcode)
+                            st.between += 1
+                        between_cwd = sess.cwd
                     if will_connect:
                         if not sess.dc:
                             await peer.data_connect()
@@ -164,7 +180,11 @@ async def drive(peer, sess: M.Session, ops, *, world=None, check_tree=True, sett
                 got = sorted(listing_names(v, st.data))
                 if got != sorted(exp.names):
                     st.problems.append(("wrong-listing", f"{line!r}: listed {got}, model has {sorted(exp.names)}"))
+            if between_cwd is not None:
+                sess.cwd = cwd_at_command
             sess.apply(v, arg, st.final, stored=stored)
+            if between_cwd is not None:
+                sess.cwd = between_cwd
             if exp.closes and not st.closed:
                 # give the server a moment to close after 221
                 try:
